@@ -47,6 +47,19 @@ fn emit_for(t: &mut TraceOut, a: &[f64], n: usize, cls: &str, spd: bool) {
                 }
                 _ => t.emit(json!({"kind": "chol", "cls": cls, "n": n, "a": aj, "out": "panic", "l": [], "llt": [], "same": false})),
             }
+            // the same matrix in other units: A 2^(2e) has the factor L 2^e, bit for bit, at slice and Matrix level (e = -40, 30)
+            if let Some(ls) = &cs {
+                for e in [-40i32, 30] {
+                    let a2: Vec<f64> = a.iter().map(|v| v * 2f64.powi(2 * e)).collect();
+                    let am2 = Matrix { data: Vector::new(a2.clone()), nrows: n, ncols: n };
+                    let c2 = guard(|| cholesky(&a2));
+                    let m2 = guard(|| am2.cholesky());
+                    let want: Vec<f64> = ls.iter().map(|v| v * 2f64.powi(e)).collect();
+                    t.emit(json!({"kind": "chol_scaled", "cls": cls, "n": n, "a": aj, "scale_log2": 2 * e, "slice_ok": c2.is_some(), "matrix_ok": m2.is_some(),
+                                  "slice_is_scaled_factor": c2.as_ref().map(|l| same_bits(l, &want)).unwrap_or(false),
+                                  "matrix_is_scaled_factor": m2.as_ref().map(|l| same_bits(&l.data, &want)).unwrap_or(false)}));
+                }
+            }
         } else {
             // not positive definite: must be rejected, never a (non-finite) factor
             let fac = |l: &Option<Vec<f64>>| match l { Some(l) => (projrs_scaled(l, 4096), projrs_scaled(&matmul(l, l, n, n, false, true), 64)), None => (json!([]), json!([])) };
